@@ -15,6 +15,7 @@ KNOWN_TEXT = {
     "F10": "resolve_dependency(prefer_types=true) returns None when the dependency-level types target failed although the code module is loaded",
     "F11": "resolve() is not idempotent on a redirect cycle",
     "F20": "inside a loader-built redirect cycle the member carrying the TooManyRedirects entry depends on which member was requested first",
+    "F23": "segment() of a code-only graph keeps configured type-import records but drops their targets, which a direct code-only build loads",
     "F12": "an entry stored at a specifier that is also a redirect source: the walk yields the entry, lookups follow the redirect",
 }
 
@@ -32,19 +33,20 @@ CORE = "MC_Core.tla"
 CHAIN = "MC_Chain.tla"
 NPM = "MC_Npm.tla"
 FIN = "MC_Fin.tla"
-QUICK = [(CORE, "core_q"), (CORE, "policy_q"), (CORE, "forms_q"), (CORE, "redir_q"), (CORE, "roots_q"), (CORE, "tdep_q"), (CHAIN, "chain_q"), (NPM, "npm_q"), (FIN, "fin_q")]
+IMP = "MC_Imports.tla"
+QUICK = [(CORE, "core_q"), (CORE, "policy_q"), (CORE, "forms_q"), (CORE, "redir_q"), (CORE, "roots_q"), (CORE, "tdep_q"), (CORE, "optdyn_q"), (CORE, "optskip_q"), (CHAIN, "chain_q"), (NPM, "npm_q"), (FIN, "fin_q"), (IMP, "imports_q")]
 THOROUGH = QUICK + [(FIN, "fin_t"), (CORE, "core_t"), (CORE, "redir_t"), (CORE, "roots_t"), (CHAIN, "chain_t"), (NPM, "npm_t")]
 def _q(*names):
-    return [(CHAIN if n.startswith("chain") else NPM if n.startswith("npm") else FIN if n.startswith("fin") else CORE, n) for n in names]
+    return [(CHAIN if n.startswith("chain") else NPM if n.startswith("npm") else FIN if n.startswith("fin") else IMP if n.startswith("imports") else CORE, n) for n in names]
 # quick tier: the instances that matter for the property; thorough tier: everything
 PROFILES = {
     "quick": {"default": QUICK,
-              "C02": _q("core_q", "policy_q", "tdep_q", "redir_q", "npm_q", "fin_q"),
-              "C14": _q("core_q", "redir_q", "tdep_q", "chain_q", "fin_q"),
-              "C15": _q("core_q", "forms_q", "tdep_q", "redir_q", "npm_q", "fin_q"),
-              "C17": _q("core_q", "forms_q", "redir_q", "tdep_q", "npm_q", "fin_q"),
-              "C18": _q("core_q", "redir_q", "roots_q", "tdep_q", "fin_q"),
-              "C19": _q("core_q", "roots_q", "redir_q", "hist_q", "fin_q")},
+              "C02": _q("core_q", "policy_q", "tdep_q", "redir_q", "npm_q", "fin_q", "imports_q"),
+              "C14": _q("core_q", "redir_q", "tdep_q", "chain_q", "fin_q", "imports_q"),
+              "C15": _q("core_q", "forms_q", "tdep_q", "redir_q", "npm_q", "fin_q", "imports_q"),
+              "C17": _q("core_q", "forms_q", "redir_q", "tdep_q", "npm_q", "fin_q", "imports_q"),
+              "C18": _q("core_q", "redir_q", "roots_q", "tdep_q", "fin_q", "imports_q"),
+              "C19": _q("core_q", "roots_q", "redir_q", "hist_q", "fin_q", "imports_q")},
     "thorough": {"default": THOROUGH, "C19": THOROUGH + [(CORE, "hist_q"), (CORE, "hist_t")]},
 }
 TRACE_BUDGET = {"quick": 120_000, "thorough": 1_500_000}
@@ -87,8 +89,7 @@ def run(prop, tier, seed, replay):
                 out.notes.append(f"design-level: invariant {inv} violated in {prof}")
         if ncases == 0:
             raise P.ToolError("no cases generated")
-    with open(cases_path) as f:
-        case_lines = f.readlines()
+    case_lines = P.Lines(cases_path)
 
     # ---- spec -> impl: replay every case; impl -> spec: record query traces for a sample
     trace_path = os.path.join(work, "trace.ndjson")
